@@ -47,7 +47,13 @@ def occStep (n : Bytes) (b : Bool) (u : OccUse) (m : HMap) : List Ev × HMap :=
     | .insertMult raw =>
       match valueFromBytes (encOf b) raw with
       | none => ([.note "valerr"], m)
-      | some w => (.wrote b n raw w :: all.map (Ev.val "drain" b n), HMap.insert n w m)
+      | some w =>
+        -- http 1.5.0, `HeaderMap::insert_occupied_mult`: the entry's links are `take()`n before
+        -- `drain_all_extra_values` walks them; unlinking an extra value that is followed by another
+        -- one does `raw_links[entry].as_mut().unwrap()` on the `None` just left there: with three or
+        -- more values the call panics (two or more when the crate's debug assertions are on)
+        if 3 ≤ all.length then ([.note "panic"], m)
+        else (.wrote b n raw w :: all.map (Ev.val "drain" b n), HMap.insert n w m)
     | .append raw =>
       match valueFromBytes (encOf b) raw with
       | none => ([.note "valerr"], m)
